@@ -14,6 +14,10 @@ def check(ctx):
     rep.floor("reader character classes", n4, 4)
     n5 = escapes.check_grid_layout(ctx, rep)
     rep.floor("grid header layout obligations", n5, 5)
+    n7 = escapes.check_number_format(ctx, rep)
+    rep.floor("f64 placeholders in the Zinc writer", n7, 4)
+    n8 = escapes.check_timestamp_format(ctx, rep)
+    rep.floor("timestamp formatting call sites", n8, 2)
     n6 = fields.check(ctx, rep, {"haystack::encoding::zinc::encode::ToZinc", "haystack::encoding::zinc::encode::ZincEncode"})
     rep.floor("Zinc writer impls for structs with fields", n6, 13)
     rep.note("Decided: escape inverse (writer transducers vs the reader's own tables, exhaustive over all Unicode scalars by intervals), reader "
